@@ -370,7 +370,7 @@ def make_paired(stratA, stratB, phase, d=1, n=2):
             with exp_as_uf(), patched(core_mod, np=core_proxy(), float=lambda v: v), numpy_import_as(core_proxy()), \
                     patched(mcmc, np=mcmc_proxy(stub)), \
                     patched(mutate_mod, np=NpProxy(random=stub, overrides={"isinf": isinf_model})), \
-                    patched_attr(mcmc.TPCNRunner, _adapt_sigma=noadapt), patched_attr(mcmc.RWMRunner, _adapt_sigma=noadapt):
+                    patched_attr(mcmc.TPCNRunner, _adapt_sigma=noadapt, _check_convergence=lambda self, acc: True), patched_attr(mcmc.RWMRunner, _adapt_sigma=noadapt, _check_convergence=lambda self, acc: True):
                 smp._core.mutator.run(ms)
         finally:
             if saved is not None:
@@ -437,7 +437,7 @@ def make_paired(stratA, stratB, phase, d=1, n=2):
     return Obligation(f"paired-{phase}-{stratA}-vs-{stratB}", harness, replay=replay,
                       encodes=[mutate_mod.Mutator.run, core_mod.SamplerCore._log_like, mcmc.BaseMCMCRunner._evaluate_likelihood, mcmc.BaseMCMCRunner.run],
                       bounds=f"{n} particles, d={d}, one kernel iteration (rwm) / one prior batch, identical symbolic draws in both runs, <= 1 redraw",
-                      stubs=["np.random.* -> shared symbolic draws", "_adapt_sigma -> no-op", "float() -> identity", "multiprocess.Pool -> contract double"],
+                      stubs=["np.random.* -> shared symbolic draws", "_adapt_sigma -> no-op, _check_convergence -> True (one kernel iteration)", "float() -> identity", "multiprocess.Pool -> contract double"],
                       allow_bound="paths needing more proposal redraws than the draw budget are cut", theory="QF_UFNRA", max_paths=3000)
 
 
